@@ -44,9 +44,14 @@ def _is_eigen_row(k):
     return isinstance(k, tuple) and k[0] == "mcall" and k[1].endswith("::row") and _is_eigvec_matrix(k[2])
 
 
+# before diagonalisation HamiltonianPart::H holds the Hamiltonian in the Fock basis: both indices are Fock positions
+PRE_DIAGONALISATION = (HP + "prepare",)
+
+
 def uses(fn, ctx):
     """list of (arg node, role, description) for index arguments in fn"""
     out = []
+    col_role = "fock" if fn.name in PRE_DIAGONALISATION else "eigen"
     if fn.body is None or fn.body < 0:
         return out
     for j, n in fn.walk(fn.body):
@@ -71,7 +76,7 @@ def uses(fn, ctx):
             elif short in ("coeff", "coeffRef") and ok_ is not None:
                 if _is_eigvec_matrix(ok_) and len(args) == 2:
                     out.append((args[0], "fock", "eigenvector matrix row"))
-                    out.append((args[1], "eigen", "eigenvector matrix column"))
+                    out.append((args[1], col_role, "eigenvector matrix column"))
                 elif _is_eigen_vector(ok_) and args:
                     out.append((args[0], "eigen", "eigen-indexed vector"))
                 elif _is_fock_vector(ok_) and args:
@@ -81,7 +86,7 @@ def uses(fn, ctx):
             rest = args[1:]
             if _is_eigvec_matrix(ok_) and len(rest) == 2:
                 out.append((rest[0], "fock", "eigenvector matrix row"))
-                out.append((rest[1], "eigen", "eigenvector matrix column"))
+                out.append((rest[1], col_role, "eigenvector matrix column"))
             elif _is_eigen_vector(ok_) and len(rest) == 1:
                 out.append((rest[0], "eigen", "weights / eigenvalues"))
             elif _is_fock_vector(ok_) and len(rest) == 1:
@@ -98,6 +103,10 @@ def conflicts(fn, db):
     by = {}
     n_uses = 0
     for node, role, desc in uses(fn, ctx):
+        if isinstance(node, tuple) and node[0] == "decl":
+            by.setdefault((node[1], node[2]), []).append((role, desc, ctx.decls[node[1]].get("declnode", fn.body)))
+            n_uses += 1
+            continue
         m = fn.nodes[node]
         # strip value-preserving casts
         while m["k"] == "cast":
